@@ -18,6 +18,13 @@
   Before the repair the code had the first table only and relabelled the whole placeholder range
   (all lines a step added in one place) with the author of whichever of its lines it looked up
   first; `headOnlyCredit` and `blockCredit` keep that behaviour for the regression examples.
+
+  The note of a new commit holds exactly the lines the lookup credits (Model/Rewrite.lean `replayChain`).
+  Until 74aa63f9 a new commit for which that note came out empty was given the raw note of the source
+  commit at the same position of the range instead, line numbers included (`positionalNoteCopy`, kept for
+  the regression examples); the code now copies such a note only when it attests no line
+  (rebase_authorship.rs:note_carried_over_without_lines), which at this level — a note is its line
+  attestations — is the empty note the replay computed.
 -/
 import GitAiModel.Model.Sys
 namespace GitAi.Sys
@@ -50,5 +57,16 @@ def headOnlyCredit (srcLog : List (List Nat × List Nat)) (srcNotes : List Note)
     the first line of the block that the table knows gives its author to the whole block -/
 def blockCredit (credit : Nat → Author) (block : List Nat) : Author :=
   (block.filterMap credit).head?
+
+/-- the note the `i`-th new commit (oldest first) of a replay was given before the repair of the raw note
+    copy: when the replay found no AI line in it (`computed = []`), the raw note of the source commit at the
+    same position of the replayed range (`srcNotes` oldest first) — that commit's line numbers included,
+    whichever change the positional partner is (after squash / fixup / drop / a reorder: another one).
+    The repaired code writes `computed` (Model/Rewrite.lean `replayChain`: `splitNote` of the lines the commit
+    adds); a source note is copied only when it attests no line. -/
+def positionalNoteCopy (srcNotes : List Note) (i : Nat) (computed : Note) : Note :=
+  match computed with
+  | [] => srcNotes.getD i []
+  | _ => computed
 
 end GitAi.Sys
